@@ -522,7 +522,73 @@ def shrink_case(drv, orc, name, ops, v):
     return ops, v
 
 
+def all_valid_ops(s):
+    """every operation line admissible in the abstract state s (used by the exhaustive stream)"""
+    V = s.verts()
+    out = []
+    for x in V:
+        out.append(("rv", [x]))
+        out.append(("rs", [x]))
+    for x, y in itertools.combinations(V, 2):
+        if frozenset((x, y)) in s.K:
+            out += [("re", [x, y]), ("rs", [x, y]), ("ce", [x, y]), ("ce", [y, x])]
+        else:
+            out += [("ae", [x, y]), ("aw", [y, x]), ("ci", [x, y]), ("ci", [y, x])]
+    for r in range(3, len(V) + 1):
+        for c in itertools.combinations(V, r):
+            f = frozenset(c)
+            if f in s.K:
+                out.append(("rs", list(c)))
+                if s.valid("ab", list(c)):
+                    out.append(("ab", list(c)))
+            else:
+                out.append(("as", list(c)))
+    if s.n < MAXSLOTS:
+        out.append(("av", []))
+    return [(op, a) for (op, a) in out if s.valid(op, a)]
+
+
+def exhaustive_stream(thorough):
+    """all sequences of two admissible operations (three on the smallest bases in the thorough tier) after each base complex"""
+    def complete(n, fill="aw"):
+        return ["av"] * n + ["%s %d %d" % (fill, x, y) for x in range(n) for y in range(x + 1, n)]
+    bases = [
+        ("full4", complete(4)),
+        ("hollow4", complete(4) + ["ab 0 1 2 3"]),
+        ("cycle4", ["av"] * 4 + ["ae 0 1", "ae 1 2", "ae 2 3", "ae 0 3"]),
+        ("triangles-sharing-edge", ["av"] * 4 + ["aw 0 1", "aw 0 2", "aw 1 2", "aw 0 3", "aw 1 3"]),
+        ("hollow-triangle-pendant", ["av"] * 4 + ["ae 0 1", "ae 0 2", "ae 1 2", "ae 2 3"]),
+        ("k4-two-blockers", complete(4) + ["ab 0 1 2", "ab 0 1 3"]),
+        ("hollow5", complete(5) + ["ab 0 1 2 3 4"]),
+        ("k5-mixed", complete(5) + ["ab 0 1 2", "ab 1 2 3 4"]),
+    ]
+    if thorough:
+        bases += [("octahedron", ["av"] * 6 + ["aw %d %d" % (x, y) for x in range(6) for y in range(x + 1, 6)
+                                               if (x, y) not in ((0, 3), (1, 4), (2, 5))]),
+                  ("k5-three-blockers", complete(5) + ["ab 0 1 2", "ab 0 3 4", "ab 1 2 3 4"])]
+    out = []
+    for name, base in bases:
+        s0 = Spec()
+        for l in base:
+            op, a = parse(l)
+            s0.apply(op, a)
+        depth = 3 if (thorough and s0.n <= 4) else 2
+
+        def rec(s, ops, d):
+            for (op, a) in all_valid_ops(s):
+                l = line(op, a)
+                if s.trigger(op, a) or d == 1:
+                    out.append(("exh-%s-%d" % (name, len(out)), base + ops + [l]))
+                    continue
+                s2 = s.copy()
+                s2.apply(op, a)
+                rec(s2, ops + [l], d - 1)
+        rec(s0, [], depth)
+    return out
+
+
 def check(ctx, replay=None):
+    import hashlib
     res = core.Result()
     if not getattr(ctx, "skip_proof", False):
         ctx.prove(["Extract_C17.vo"])
@@ -530,34 +596,61 @@ def check(ctx, replay=None):
     drv_a = ctx.build_harness("c17_drv.cpp", tag="assert", flags=[])
     orc = ctx.build_oracle("c17")
     rng = ctx.rng
+    distinct = set()
+    samples = []
+
+    def run_chunk(hist):
+        evaluate(ctx, drv, orc, hist, res, drv_assert=drv_a)
+        for (_, ops) in hist:
+            if len(ops) > 1:
+                distinct.add(hashlib.md5("|".join(ops).encode()).hexdigest()[:16])
+        for i in sorted(rng.sample(range(len(hist)), min(2, len(hist)))):
+            samples.append({"name": hist[i][0], "ops": hist[i][1]})
+
     if replay:
         hist = [(replay["case"].get("name", "replay"), list(replay["case"]["ops"]))]
         evaluate(ctx, drv, orc, hist, res, shrink=False, drv_assert=drv_a)
+        distinct.add("replay")
+        samples.append({"name": hist[0][0], "ops": hist[0][1]})
     else:
+        thorough = ctx.tier == "thorough"
         hist = load_corpus() + boundary_stream()
         res.count("corpus+boundary-histories", len(hist))
-        thorough = ctx.tier == "thorough"
-        n_main = 150000 if thorough else 15000
+        run_chunk(hist)
+        ex = exhaustive_stream(thorough)
+        res.count("exhaustive-stream-histories", len(ex))
+        for k in range(0, len(ex), 20000):
+            run_chunk(ex[k:k + 20000])
+        n_main = 150000 if thorough else 12000
         n_trig = 6000 if thorough else 600
-        for k in range(n_main):
-            style = rng.choices(["plain", "skeleton", "mk"], [5, 4, 1])[0]
-            ops = random_history(rng, rng.choice([8, 12, 16, 20, 25, 30]), style, allow_trigger=False)
-            hist.append(("rand-%s-%d" % (style, k), ops))
-            res.count("style:" + style)
-        for k in range(n_trig):
-            ops = random_history(rng, rng.choice([12, 20, 30]), rng.choice(["plain", "skeleton", "hollow", "hollow"]), allow_trigger=True)
-            hist.append(("trig-%d" % k, ops))
-            res.count("style:trigger-allowed")
-        evaluate(ctx, drv, orc, hist, res, drv_assert=drv_a)
-    res.distinct = set(tuple(ops) for (_, ops) in hist if len(ops) > 1)
+        CH = 16000
+        done = 0
+        while done < n_main + n_trig:
+            hist = []
+            for k in range(done, min(done + CH, n_main + n_trig)):
+                if k < n_main:
+                    style = rng.choices(["plain", "skeleton", "mk"], [5, 4, 1])[0]
+                    ops = random_history(rng, rng.choice([8, 12, 16, 20, 25, 30]), style, allow_trigger=False)
+                    hist.append(("rand-%s-%d" % (style, k), ops))
+                    res.count("style:" + style)
+                else:
+                    ops = random_history(rng, rng.choice([12, 20, 30]), rng.choice(["plain", "skeleton", "hollow", "hollow"]),
+                                         allow_trigger=True)
+                    hist.append(("trig-%d" % (k - n_main), ops))
+                    res.count("style:trigger-allowed")
+            done += len(hist)
+            run_chunk(hist)
+            ctx.log("%d histories done" % done)
+    res.distinct = distinct
     res.rule = ("one case = one history (sequence of operation lines on a fresh complex, <= 30 operations after the set-up, <= %d vertex "
                 "slots); distinct = distinct operation sequences with at least two operations; after EVERY operation the whole "
                 "observable state (num_vertices/edges/blockers, vertices, edges, blockers, contains() on all subsets of the slots, "
                 "num_simplices, complex_simplex_range, num_connected_components, link_condition of every edge) is compared with the "
                 "extracted transcription and with the extracted abstract complex" % MAXSLOTS)
-    idx = sorted(rng.sample(range(len(hist)), min(8, len(hist))))
-    res.samples = [{"name": hist[i][0], "ops": hist[i][1]} for i in idx]
+    res.samples = samples[:8]
     res.extra["max_slots"] = MAXSLOTS
+    res.notes.append("exhaustive sub-domain: every sequence of two admissible operations (three on the 4-vertex bases in the thorough "
+                     "tier) after each of the base complexes of exhaustive_stream()")
     return core.finish(ctx, None, res, TRUSTED, ASSUMPTIONS, LEVEL,
                        "cd /verif/coq && make -f Makefile.coq Properties_C17.vo  (coqc 8.16.1; Print Assumptions after every theorem)",
                        correspondence_name=CORRESPONDENCE)
